@@ -267,7 +267,9 @@ func (g *PG) scalarType() *Ty {
 	return []*Ty{TInt, TFloat, TStr, TBool}[g.pick(4)]
 }
 
-var strPool = []string{"", "a", "b", "ab", "abc", "hello world", " pad ", "x,y,z", "Hé", "日本", "a\"q", "b\\s", "l1\nl2", "12", "-3", "2.5", "A=b"}
+var strPool = []string{"", "a", "b", "ab", "abc", "hello world", " pad ", "x,y,z", "Hé", "日本", "a\"q", "b\\s", "l1\nl2", "12", "-3", "2.5", "A=b",
+	// spellings of numbers a lenient conversion would read differently
+	"010", "08", "0x10", "1_000", "-012", "+5", " 7", "1e3", "0", "007", "0b11", "1.", ".5", "0.10"}
 
 func (g *PG) literal(t *Ty, d int) *ref.Node {
 	switch t.K {
@@ -641,6 +643,10 @@ func (g *PG) fault(t *Ty, d int, letOK bool) *ref.Node {
 	case 5:
 		return ref.Bin("+", g.Gen(TInt, d+1, false), g.Gen(TBool, d+1, false))
 	case 6:
+		if g.chance(0.5) {
+			// too many arguments (all constants: the optimizer must not fold such a call to a value)
+			return ref.Call(g.closureLit(TFunc(t, TInt), d+1), g.literal(TInt, 99), g.literal(TInt, 99))
+		}
 		return ref.Call(g.closureLit(TFunc(t, TInt), d+1)) // wrong arity
 	case 7:
 		return ref.Method(g.Gen(TList(TInt), d+1, false), "first")
